@@ -286,28 +286,40 @@ def write_evidence(pid, ev):
         f.write("\n")
 
 
-def native_replay(pid, spec, src_file, harness_fn, pb, keep_overlay=False):
-    """Append the concrete-playback test to the overlay and run it natively.  Returns (reproduced, log_excerpt)."""
+def native_replay(pid, spec, src_file, harness_fn, pbs, keep_overlay=False):
+    """Append the concrete-playback tests to the overlay and run them natively (one build).
+    Returns (failing_pb or None, ran_ok, log_excerpt)."""
+    if isinstance(pbs, dict):
+        pbs = [pbs]
     ov = Overlay(pid + "-replay")
     try:
-        overlays = spec["overlays"]
-        extra = {src_file: pb["code"]}
-        ov.create(overlays, extra_tests=extra, seed=int(os.environ.get("VERIF_SEED", "0") or 0))
+        seen = set()
+        uniq = []
+        for pb in pbs:
+            if pb["test_name"] and pb["test_name"] not in seen:
+                seen.add(pb["test_name"])
+                uniq.append(pb)
+        extra = {src_file: "\n".join(pb["code"] for pb in uniq)}
+        ov.create(spec["overlays"], extra_tests=extra, seed=int(os.environ.get("VERIF_SEED", "0") or 0))
         env = env_base()
         env["CARGO_TARGET_DIR"] = os.path.join(CACHE, "kani-playback-target")
         env["RUST_BACKTRACE"] = "0"
         crate = crate_of(src_file)
-        cmd = ["cargo", "kani", "playback", "-Z", "concrete-playback", "-p", crate, "--lib", "--", pb["test_name"]]
+        cmd = ["cargo", "kani", "playback", "-Z", "concrete-playback", "-p", crate, "--lib", "--",
+               "kani_concrete_playback_", "--test-threads", "1"]
         logf = os.path.join(ov.root, "playback.log")
-        rc, out, to, _ = run_limited(cmd, ov.src, 1500, logf, env)
+        rc, out, to, _ = run_limited(cmd, ov.src, 1800, logf, env)
         ran = re.search(r"test result: (\w+)\. (\d+) passed; (\d+) failed", out)
         if to or not ran:
-            return None, out[-3000:]
-        failed = int(ran.group(3)) > 0
-        excerpt = "\n".join(l for l in out.splitlines() if "panicked at" in l or l.startswith("test ") or "C%s" % pid[1:] in l)[:2000]
-        # the line after 'panicked at' carries the message
-        msgs = re.findall(r"panicked at [^\n]*\n([^\n]*)", out)
-        return failed, (excerpt + "\n" + "\n".join(msgs))[:3000]
+            return None, False, out[-3000:]
+        failed_names = re.findall(r"^test (\S+) \.\.\. FAILED", out, re.M)
+        msgs = re.findall(r"panicked at ([^\n]*)\n([^\n]*)", out)
+        note = "\n".join(l for l in out.splitlines() if l.startswith("test ") and "..." in l)
+        note += "\n" + "\n".join(f"panicked at {a} {b}" for a, b in msgs)
+        for pb in uniq:
+            if any(fn.endswith("::" + pb["test_name"]) for fn in failed_names):
+                return pb, True, note[:3000]
+        return None, True, note[:3000]
     finally:
         if not keep_overlay:
             ov.remove()
@@ -433,11 +445,15 @@ def run_property(pid):
                     unknown.append(fc)
             if unknown:
                 # replay natively before reporting
-                pbs = [p for p in r["playback"] if p["check_kind"] != "cover"
-                       and any(p["check_desc"] == fc["desc"] for fc in unknown)]
-                if not pbs:
-                    pbs = [p for p in r["playback"] if p["check_kind"] != "cover"]
-                if not pbs:
+                def order_pbs(pl):
+                    a = [p for p in pl if p["check_kind"] != "cover" and any(p["check_desc"] == fc["desc"] for fc in unknown)]
+                    b = [p for p in pl if p["check_kind"] != "cover" and p not in a]
+                    # Kani prints one test per distinct input vector: a failing assertion whose witness equals a
+                    # cover witness is only listed under the cover, so cover tests are candidates too.
+                    c = [p for p in pl if p["check_kind"] == "cover"]
+                    return a + b + c
+                pbs = order_pbs(r["playback"])
+                if not [p for p in pbs if p["check_kind"] != "cover"]:
                     # run again with playback enabled for just this harness
                     mp = module_path(r["file"])
                     name = (mp + "::" if mp else "") + "verif_kani::" + fn
@@ -446,20 +462,14 @@ def run_property(pid):
                     rc, out, to, wall = run_limited(cmd, ov.src, hspec.get("timeout", 300) * 2 + 300,
                                                     os.path.join(ov.root, "kani-pb.log"))
                     pr = parse_kani(out).get(name, {})
-                    pbs = [p for p in pr.get("playback", []) if p["check_kind"] != "cover"]
+                    pbs = order_pbs(pr.get("playback", []))
                 if not pbs:
                     inconclusive.append(dict(kind="replay", harness=fn,
                                              detail="solver gave no concrete counterexample to replay: "
                                              + "; ".join(fc["desc"] for fc in unknown)))
                     continue
-                reproduced = None
-                note = ""
-                chosen = None
-                for pb in pbs[:3]:
-                    reproduced, note = native_replay(pid, spec, r["file"], fn, pb)
-                    chosen = pb
-                    if reproduced:
-                        break
+                chosen, ran_ok, note = native_replay(pid, spec, r["file"], fn, pbs[:8])
+                reproduced = chosen is not None
                 if reproduced:
                     path = write_replay_file(pid, fn, r["file"], chosen, unknown, note)
                     violations.append((fn, unknown, path))
@@ -593,11 +603,12 @@ def do_replay(path):
     spec = load_spec(pid)
     code = "\n".join(l for l in text.splitlines() if not l.startswith("// "))
     mt = re.search(r"fn (kani_concrete_playback_\w+)\(", code)
-    reproduced, note = native_replay(pid, spec, src, fn, dict(code=code, test_name=mt.group(1)))
+    chosen, ran_ok, note = native_replay(pid, spec, src, fn, [dict(code=code, test_name=mt.group(1))])
     print(note)
-    if reproduced is None:
+    if not ran_ok:
         print("replay: could not run")
         return 2
+    reproduced = chosen is not None
     print("replay: " + ("REPRODUCED (property assertion fails natively)" if reproduced else "did not reproduce"))
     return 1 if reproduced else 0
 
